@@ -143,14 +143,14 @@ type c09Event struct {
 	B   string `json:"b"`
 }
 type c09Outcome struct {
-	Idx     int        `json:"idx"`
-	Begin   bool       `json:"begin,omitempty"`
-	Outcome string     `json:"outcome,omitempty"` // ok | wrong | noreturn
-	Detail  string     `json:"detail,omitempty"`
-	Runs    int        `json:"runs,omitempty"`
-	Events  []c09Event `json:"events,omitempty"`
+	Idx     int         `json:"idx"`
+	Begin   bool        `json:"begin,omitempty"`
+	Outcome string      `json:"outcome,omitempty"` // ok | wrong | noreturn
+	Detail  string      `json:"detail,omitempty"`
+	Runs    int         `json:"runs,omitempty"`
+	Events  []c09Event  `json:"events,omitempty"`
 	Frags   [][3]string `json:"frags,omitempty"` // digested pool of the run whose events are logged
-	Result  []string   `json:"result,omitempty"`
+	Result  []string    `json:"result,omitempty"`
 }
 
 func c09Child(args []string) {
